@@ -41,10 +41,9 @@ def run_script(script, mode, params, seed, timeout=600):
 def find_replays(mod, obligation):
     """candidate concretisers, best first: the longest matching prefix of the property's own REPLAY table and of the table of
     the module the obligation was shared from (ties: the source module first -- it knows best how to replay its obligation)"""
-    own_best = None
-    for pref, script, mode, params in getattr(mod, "REPLAY", []):
-        if obligation.startswith(pref) and (own_best is None or len(pref) > len(own_best[0])):
-            own_best = (pref, script, mode, params)
+    own_all = sorted([(pref, script, mode, params) for pref, script, mode, params in getattr(mod, "REPLAY", []) if obligation.startswith(pref)],
+                     key=lambda e: -len(e[0]))
+    own_best = own_all[0] if own_all else None
     own = getattr(mod, "__name__", "").split(".")[-1]
     src_best = None
     if len(obligation) > 3 and obligation[:3] != own:
@@ -60,7 +59,7 @@ def find_replays(mod, obligation):
     if own_best is not None and src_best is not None and len(src_best[0]) >= len(own_best[0]):
         cands = [src_best, own_best]
     out = []
-    for c in cands:
+    for c in cands + own_all[1:3]:          # then the less specific entries of the own table (another scenario for the same family)
         if not any(c[1:] == d[1:] for d in out):
             out.append(c)
     return out
